@@ -82,6 +82,21 @@ pub fn thread_point(site: &'static str) {
     }
 }
 
+thread_local! {
+    static THREAD_SLOT: std::cell::Cell<Option<usize>> =
+        const { std::cell::Cell::new(None) };
+}
+
+/// Gives the calling thread a fixed slot number. Code that would otherwise
+/// pick a stripe from the hash of the OS thread id (which differs from run to
+/// run) uses the slot instead, so that a simulated execution does not depend
+/// on thread ids.
+pub fn set_thread_slot(slot: usize) { THREAD_SLOT.with(|s| s.set(Some(slot))); }
+
+/// The slot of the calling thread, if one was assigned.
+#[must_use]
+pub fn thread_slot() -> Option<usize> { THREAD_SLOT.with(std::cell::Cell::get) }
+
 /// A plain event.
 pub fn event(site: &'static str, a: u64, b: u64) {
     if let Some(hooks) = HOOKS.get() {
